@@ -53,6 +53,7 @@ def make_cfg(seed, i):
     up.pop("noise.quit_on_noise_level", None)
     up.pop("noise.additive_noise_level", None)
     up.pop("noise.multiplicative_noise_level", None)
+    campaign.maybe_failpoint(cfg, rng, p=0.1)
     return cfg
 
 
